@@ -4,7 +4,8 @@ import iongen
 import binlib
 import cursor
 
-THEOREMS = ["C06bin_never_panics_default", "C06bin_every_call_returns_default", "C06bin_next_terminates", "C06bin_traverse_memory_default", "C06bin_memory_follows_input", "C06bin_default_ts_total", "tr_no_panic", "tr_no_panic_text", "tr_progress_whitespace", "tr_progress_strings", "tr_progress_skip_container", "tr_fuel_linear", "C17_plain_safe", "C17_plain_unmarshal_safe"]
+THEOREMS = ["C06bin_never_panics_default", "C06bin_every_call_returns_default", "C06bin_next_terminates", "C06bin_traverse_memory_default", "C06bin_memory_follows_input", "C06bin_default_ts_total", "tr_no_panic", "tr_no_panic_text", "tr_progress_whitespace", "tr_progress_strings", "tr_progress_skip_container", "tr_fuel_linear", "C17_plain_safe", "C17_plain_unmarshal_safe", "C06text_tokenizer_next", "C06text_tokenizer_read_value", "C06text_tokenizer_read_number", "C06text_tokenizer_lobs", "C06text_tokenizer_finish_value", "C06text_skip_value", "C06text_tokenizer_misc", "C06text_step_in_out", "C06text_next_inner", "C06text_read_local_symbol_table", "C06text_next", "C06text_op_any_state", "C06text_never_out_of_fuel", "C06text_parsers_total", "C06text_never_out_of_fuel_text"]
+EXTRA_MODULES = ["C06text"]
 LEVEL = "other"
 EXPLANATION = ("hostile inputs (grammar-aware documents: typed nulls in every slot of a symbol-table struct, extreme "
                "lengths / exponents / IDs / max_id, maximal VarUInts, deep nesting; byte mutations of valid documents; all "
